@@ -48,6 +48,18 @@ if "skip" in sections:
         tab["skip"] = c07.skip_table(prog)
     except (ImportError, AttributeError):
         pass
+# reaching conditions (boolean formulas) of every row, so that a check can tell a re-coded condition from a changed one
+from rules import guards
+forms = tab.get("_formulas", {})
+for sec, t in tab.items():
+    if sec.startswith("_") or not isinstance(t, dict):
+        continue
+    for fn, rows in t.items():
+        for r in rows:
+            k = (fn, tuple(r[1]))
+            if k in guards.FORMULAS:
+                forms.setdefault(fn, {})["\x1f".join(r[1])] = guards.FORMULAS[k]
+tab["_formulas"] = forms
 tab["_comment"] = "reviewed snapshot of guarded-effect tables (control predicates in structural normal form; no source text, no line numbers)"
 json.dump(tab, open(p, "w"), indent=1, sort_keys=True)
-print({k: (sum(len(v) for v in t.values()) if isinstance(t, dict) else 0) for k, t in tab.items()})
+print({k: (sum(len(v) for v in t.values()) if isinstance(t, dict) else 0) for k, t in tab.items() if not k.startswith("_")}, "formulas:", sum(len(v) for v in forms.values()))
